@@ -137,7 +137,8 @@ def run(ctx):
                 if not (e.get('name') or '').startswith('RecomputeOutputsDirtyCache::RecomputeOutputDirty') or len(e.get('args') or []) < 3:
                     continue
                 npo += 1
-                sel = {x['n'] for x in walk(e['args'][0]) if isinstance(x, dict) and x.get('k') == 'var'}
+                sel = {x['n'] for x in walk(e['args'][0]) if isinstance(x, dict) and x.get('k') == 'var'} | \
+                      {x['n'] for x in walk(deep_resolve(fn, e['args'][0])) if isinstance(x, dict) and x.get('k') == 'var'}
                 cache = e['args'][2]
                 cvars = {x['n'] for x in walk(cache) if isinstance(x, dict) and x.get('k') == 'var'}
                 inside = set()
